@@ -222,6 +222,10 @@ func runC07(c *Ctx) {
 				if dominatesInstr(rc.(ssa.Instruction), pc.(ssa.Instruction)) {
 					dom = true
 				}
+				// `if c.decodeReset { c.resetDecode() }`: nothing is pending when the flag is clear
+				if tb := underFlagTest(rc, decodeResetF); tb != nil && tb != pc.Block() && tb.Dominates(pc.Block()) {
+					dom = true
+				}
 			}
 			if !dom {
 				good = false
@@ -404,6 +408,9 @@ func runC07(c *Ctx) {
 							if loadOfField(l.Cond, decodeResetF) && l.Pos {
 								good = true
 							}
+						}
+						if allCallsUnderFlag(p, resetDecode, decodeResetF) {
+							good = true
 						}
 					}
 				}
